@@ -5,6 +5,8 @@
          handing it a generator derived from mine, or nothing, or something else / use process-global
          randomness).  `run` executes a body against a generator state and an ambient source of
          entropy (the process-global generator, OS entropy: whatever is not the caller's seed).
+         A statement may be conditional on ambient state (SCond): the draw under a logging-level test,
+         the per-thread spawn.  Such a statement is never closed.
    (ii)  Rankers with user-derived seeds versus rankers with one fixed generator.
    (iii) Row-parallel computations: fixed-size consecutive chunks, joined in chunk order. *)
 From Coq Require Import ZArith List Bool String.
@@ -13,7 +15,9 @@ Local Open Scope string_scope.
 
 (* ---- (i) the call-graph language --------------------------------------------------------- *)
 Inductive rarg := ASeeded | ANone | AOmitted | AUnseeded.
-Inductive stmt := SDraw | SCall (callee : string) (a : rarg) | SGlobal (what : string).
+(* SCond what s: a use s of the function's own generator that happens only when ambient state `what`
+   (logging level, environment, thread count ...) says so *)
+Inductive stmt := SDraw | SCall (callee : string) (a : rarg) | SGlobal (what : string) | SCond (what : string) (s : stmt).
 Record fn := mkFn { fn_name : string; fn_takes : bool; fn_primitive : bool; fn_body : list stmt }.
 
 Inductive rg_plan := UseGlobal | FromArgument.
@@ -51,6 +55,8 @@ Section Run.
               match s with
               | SDraw => let (v, g') := draw g in ([v], g', e)
               | SGlobal _ => let (v, e') := ambient e in ([v], g, e')
+              | SCond _ s1 => let (v, e') := ambient e in
+                              if Z.odd v then run k [s1] g e' else ([], g, e')
               | SCall c ASeeded =>
                   match resolve c with
                   | Some f => run k (fn_body f) g e
@@ -170,6 +176,34 @@ Definition joined_scatter {A} (f : A -> A) (c : nat) (rows : list A) : list A :=
 Definition joined_rows {A B} (f : A -> list B) (c : nat) (rows : list A) : list B :=
   List.concat (map (fun blk => List.concat (map f blk)) (chunks c rows)).
 
+(* ---- (iv) filling rows from a generator, block by block -------------------------------------- *)
+Section Fill.
+  Context {G A : Type}.
+  Variable draw : G -> A * G.
+
+  (* rng.standard_normal((n, k)): n rows in order from one generator *)
+  Fixpoint fill (n : nat) (g : G) : list A * G :=
+    match n with
+    | O => ([], g)
+    | S m => let (v, g1) := draw g in let (vs, g2) := fill m g1 in (v :: vs, g2)
+    end.
+
+  (* the same rows filled in consecutive blocks, every block continuing the one generator *)
+  Fixpoint fill_blocks (sizes : list nat) (g : G) : list A * G :=
+    match sizes with
+    | [] => ([], g)
+    | n :: t => let (vs, g1) := fill n g in let (ws, g2) := fill_blocks t g1 in ((vs ++ ws)%list, g2)
+    end.
+
+  (* one child generator per block (rng.spawn(number of blocks)) *)
+  Variable child : G -> nat -> G.
+  Fixpoint fill_children (i : nat) (sizes : list nat) (g : G) : list A :=
+    match sizes with
+    | [] => []
+    | n :: t => (fst (fill n (child g i)) ++ fill_children (S i) t g)%list
+    end.
+End Fill.
+
 (* ---- correspondence helpers -------------------------------------------------------------- *)
 Definition all_equal (l : list Z) : bool :=
   match l with [] => true | x :: t => forallb (Z.eqb x) t end.
@@ -178,6 +212,14 @@ Fixpoint zlist_eqb (a b : list Z) : bool :=
   match a, b with
   | [], [] => true
   | x :: s, y :: t => Z.eqb x y && zlist_eqb s t
+  | _, _ => false
+  end.
+
+(* equal up to rounding: integers in units of 1e-9 of the common scale, entry by entry within tol *)
+Fixpoint zlist_close (tol : Z) (a b : list Z) : bool :=
+  match a, b with
+  | [], [] => true
+  | x :: s, y :: t => Z.leb (Z.abs (x - y)) tol && zlist_close tol s t
   | _, _ => false
   end.
 
